@@ -483,7 +483,7 @@ Definition el_verdict (ic:bool) : M (list positive) :=
 Definition init (p:particle) : M unit :=
   t <- build FUEL p ;;
   i <- build FUEL p ;; upd i (w_pxe true) ;;; set_root i.
-Inductive op := OAdd (s:positive) | OAddFwd (s:positive) (i:nat) | ORemove (k:nat) | OReplace (k:nat) (s:positive) | OFinal (ic:bool).
+Inductive op := OAdd (s:positive) | OAddFwd (s:positive) (i:nat) | ORemove (k:nat) | OReplace (k:nat) (s:positive) | OReplaceSame (k:nat) | OFinal (ic:bool).
 Record line := mkLine { l_exn : option exn; l_ordered : list eid; l_unordered : list (eid*positive); l_req : option (list positive); l_out : nat }.
 Definition empty_store := mkStore [] [] 0 [] 0 [].
 Definition catch {A} (m:M A) (st:store) : option exn * store := match m st with (Ok _, s1) => (None, s1) | (Err e, s1) => (Some e, s1) end.
@@ -495,6 +495,7 @@ Fixpoint run_ops (ops:list op) (next:eid) (st:store) : list line :=
       | OAddFwd s i => catch (el_add_child next s (Some i)) st
       | ORemove k => match nth_error (unordered st) k with None => (None, st) | Some (e,_) => catch (el_remove e) st end
       | OReplace k s => match nth_error (unordered st) k with None => (None, st) | Some (e,_) => catch (el_replace e next s) st end
+      | OReplaceSame k => match nth_error (unordered st) k with None => (None, st) | Some (e,s0) => catch (el_replace e next s0) st end
       | OFinal _ => (None, st) end in
     let '(vr, st2) := match o with
       | OFinal ic => match el_verdict ic st' with (Ok v, s2) => (Some (Ok v), s2) | (Err e, s2) => (Some (Err e), s2) end
